@@ -212,9 +212,10 @@ class Ctx:
         Returns (ok, offending suspension node or None)."""
         c = self.cfg(fi)
         avoid = {a, *also_avoid}
-        fwd = c.reachable([a], avoid=avoid)
-        if b not in fwd:
+        if b not in c.reachable([a], avoid=avoid):
             return True, None
+        avoid = avoid | {b}
+        fwd = c.reachable([a], avoid=avoid)
         back = c.co_reachable([b], avoid=avoid)
         for n in self.suspension_nodes(fi):
             if n in fwd and n in back and n is not b:
